@@ -115,8 +115,50 @@ let r_st t = match as_list t with
   | [a; c; tr; te] -> { Misc.active = r_list r_idx a; Misc.cand = r_list r_idx c; Misc.ctrain = r_tree tr; Misc.ctest = r_tree te }
   | _ -> failwith "expected state"
 
+(* rationals: [num, den] in binary *)
+let r_pos t = match z_of_bits (as_str t) with BinNums.Zpos p -> p | _ -> failwith "expected positive"
+let r_q t = match as_list t with [n; d] -> QcInst.qc_make (r_z n) (r_pos d) | _ -> failwith "expected rational"
+let w_q x = L [w_z (QcInst.qc_num x); I (bits_of_pos (QcInst.qc_den x))]
+let r_qs t = r_list r_q t
+let w_qs l = w_list w_q l
+(* grid: [tol, nodes, weights] *)
+let r_grid t = match as_list t with [tol; xs; ws] -> (r_q tol, (r_qs xs, r_qs ws)) | _ -> failwith "expected grid"
+(* term: [weight, grids, data] *)
+let r_term t = match as_list t with [w; gs; ys] -> (r_q w, (r_list r_grid gs, r_qs ys)) | _ -> failwith "expected term"
+let r_shape t = r_list r_nat t
+
 let dispatch (cmd : string) (t : tree) : tree =
   match cmd, as_list t with
+  | "shape_loop", [shapes] -> w_list w_nat (Shape.loop_shape (r_list r_shape shapes))
+  | "shape_fmt_input", [l; s; data] -> w_list (w_list w_z) (Shape.fmt_input (r_shape l) (r_shape s) (r_list r_z data))
+  | "shape_out", [l; o] -> w_list w_nat (Shape.fmt_output_shape (r_shape l) (r_shape o))
+  | "shape_batch_sum", [arrays] ->
+      (* f = sum of the first entries of the per-variable rows, weighted by position (1-based) *)
+      let f rows = [SL.fold_left BinInt.Z.add BinNums.Z0
+                      (SL.mapi (fun k r -> BinInt.Z.mul (z_of_bits (bits_of_int (k + 1))) (match r with x :: _ -> x | [] -> BinNums.Z0)) rows)] in
+      let (l, d) = Shape.batch_eval f (r_list (r_pair r_shape (r_list r_z)) arrays) in
+      L [w_list w_nat l; w_list w_z d]
+  | "lagr_refine1", [c; old; pts] ->
+      let old = match as_list old with [] -> None | [xs; ws] -> Some (r_qs xs, r_qs ws) | _ -> failwith "old" in
+      let (xs, ws) = QcRun.q_refine1 (r_q c) old (r_qs pts) in L [w_qs xs; w_qs ws]
+  | "lagr_basis1", [tol; xs; ws; x] -> w_qs (QcRun.q_basis1 (r_q tol) (r_qs xs) (r_qs ws) (r_q x))
+  | "lagr_dbasis1", [tol; xs; ws; x] -> w_qs (QcRun.q_dbasis1 (r_q tol) (r_qs xs) (r_qs ws) (r_q x))
+  | "lagr_predict", [gs; x; ys] ->
+      let gs = r_list r_grid gs and x = r_qs x and ys = r_qs ys in
+      L [w_q (QcRun.q_tpredict gs x ys); w_q (QcRun.q_tpredict_abs gs x ys)]
+  | "lagr_grad", [gs; x; ys] ->
+      let gs = r_list r_grid gs and x = r_qs x and ys = r_qs ys in
+      w_list (fun k -> w_q (QcRun.q_tgrad (nat_of_int k) gs x ys)) (SL.init (SL.length gs) (fun k -> k))
+  | "misc_predict", [terms; x] ->
+      let terms = r_list r_term terms and x = r_qs x in
+      let absterms = SL.map (fun (w, (gs, ys)) -> (w, (gs, ys))) terms in
+      ignore absterms;
+      w_q (QcRun.q_misc_predict terms x)
+  | "misc_grad", [terms; x] ->
+      let terms = r_list r_term terms and x = r_qs x in
+      (match terms with
+       | (_, (gs, _)) :: _ -> w_list (fun k -> w_q (QcRun.q_misc_grad (nat_of_int k) terms x)) (SL.init (SL.length gs) (fun k -> k))
+       | [] -> L [])
   | "misc_trace", [mx; reqs] ->
       (* states after every request, plus accepted flags *)
       let mx = r_idx mx and reqs = r_list r_idx reqs in
